@@ -168,7 +168,8 @@ fn judge_point(t: &Table, by_code: &BTreeMap<u32, &Row>, by_sym: &BTreeMap<&str,
 }
 
 pub fn run(ctx: &Ctx) {
-    ctx.set_rule("complete enumeration: every 16-bit status code and operation id, every tag byte, and the small enums over -1..255 (thorough: +-2^20) are decoded and compared with registry tables embedded in the harness; each row also checks variant-as-code. Non-trivial = a registered code or a code adjacent to one; distinct by (table, code).");
+    run_wire_tags(ctx);
+    ctx.set_rule("complete enumeration: every 16-bit status code and operation id, every tag byte, and the small enums over -1..255 (thorough: +-2^20) are decoded and compared with registry tables embedded in the harness; each row also checks variant-as-code; every registered delimiter and value tag is additionally fed to both parsers inside a well-formed message and must be recognised as what the registry says. Non-trivial = a registered code or a code adjacent to one; distinct by (table, code).");
     ctx.set_exhaustive(true);
     for t in tables(ctx.tier == Tier::Thorough) {
         let by_code: BTreeMap<u32, &Row> = t.rows.iter().map(|r| (r.reg, r)).collect();
@@ -203,7 +204,59 @@ pub fn run(ctx: &Ctx) {
     }
 }
 
+/// One message per registered tag: the tag as the library's parsers recognise it on the wire.
+fn judge_wire_tag(kind: &str, tag: u8) -> Judge {
+    use vcore::drive::{parse_async, parse_blocking, Outcome};
+    use vcore::refcodec::*;
+    let body: Vec<u8> = match tag {
+        0x21 | 0x23 => vec![0, 0, 0, 5],
+        0x22 => vec![1],
+        0x31 => vec![7, 0xe4, 1, 2, 3, 4, 5, 6, b'+', 1, 0],
+        0x32 => vec![0, 0, 2, 88, 0, 0, 2, 88, 3],
+        0x33 => vec![0, 0, 0, 1, 0, 0, 0, 9],
+        0x35 | 0x36 => vec![0, 2, b'e', b'n', 0, 1, b'x'],
+        t if (0x10..=0x1f).contains(&t) => vec![],
+        _ => b"abc".to_vec(),
+    };
+    let w = if kind == "delimiter-tag" {
+        WMsg { version: 0x0101, code: 0, request_id: 1, groups: vec![WGroup { tag: 1, attrs: vec![] }, WGroup { tag, attrs: vec![WAttr { name: b"a".to_vec(), values: vec![WVal::Scalar { tag: 0x21, body: vec![0, 0, 0, 1] }] }] }], payload: vec![] }
+    } else if tag == 0x34 || tag == 0x37 || tag == 0x4a {
+        WMsg { version: 0x0101, code: 0, request_id: 1, groups: vec![WGroup { tag: 1, attrs: vec![WAttr { name: b"c".to_vec(), values: vec![WVal::Coll(vec![WAttr { name: b"m".to_vec(), values: vec![WVal::Scalar { tag: 0x21, body: vec![0, 0, 0, 1] }] }])] }] }], payload: vec![] }
+    } else {
+        WMsg { version: 0x0101, code: 0, request_id: 1, groups: vec![WGroup { tag: 1, attrs: vec![WAttr { name: b"a".to_vec(), values: vec![WVal::Scalar { tag, body }] }] }], payload: vec![] }
+    };
+    let bytes = ref_encode(&w);
+    let expected = vcore::canon::interpret(&w).ok_or_else(|| Fail::new("harness/uninterpretable", "wire tag probe"))?;
+    for (which, out) in [("blocking", parse_blocking(&bytes)), ("async", parse_async(&bytes, vcore::sched::Schedule::whole()))] {
+        match out {
+            Outcome::Ok { canon, .. } => vcore::canon::canon_match(&expected, &canon).map_err(|e| Fail::new(format!("C16/{kind}/misread-on-the-wire"), format!("{which} parser, registered {kind} {tag:#04x}: {e}")))?,
+            o => return Err(Fail::new(format!("C16/{kind}/not-recognised-on-the-wire"), format!("{which} parser does not recognise the registered {kind} {tag:#04x} in a well-formed message: {}", o.short()))),
+        }
+    }
+    Ok(())
+}
+
+pub fn run_wire_tags(ctx: &Ctx) {
+    for (kind, rows) in [("delimiter-tag", delimiter_rows()), ("value-tag", value_tag_rows())] {
+        for r in rows {
+            if kind == "delimiter-tag" && r.reg == 0x03 {
+                continue;
+            }
+            ctx.eval();
+            ctx.nontrivial(vcore::canon::hash64(&(kind, r.reg, "wire")));
+            ctx.label(&format!("{kind}: recognised on the wire by both parsers"));
+            if let Err(f) = judge_wire_tag(kind, r.reg as u8) {
+                ctx.failure("wire-tags", &f, json!({"wire_tag": {"kind": kind, "tag": r.reg}}));
+            }
+        }
+    }
+}
+
 pub fn replay(_ctx: &Ctx, _sub: &str, case: &Value) -> Judge {
+    if let Some(w) = case.get("wire_tag") {
+        let kind = if w.get("kind").and_then(|k| k.as_str()) == Some("delimiter-tag") { "delimiter-tag" } else { "value-tag" };
+        return judge_wire_tag(kind, w.get("tag").and_then(|t| t.as_u64()).unwrap_or(0) as u8);
+    }
     let name = case.get("table").and_then(|v| v.as_str()).unwrap_or("");
     for t in tables(true) {
         if t.name == name {
